@@ -152,7 +152,9 @@ CHECKS = {
               "to the annotated class, ISO precedence, neither -> error naming all patterns, v1 zone attached, dump/reload under a named "
               "ISO law, element-wise lifting through list/tuple/dict/Optional, each position uses its own pattern (fold invariant over the "
               "field list); witnesses of the four repaired defects under quirk flags; model tied to the code over a 52-pattern catalogue x "
-              "targets x zones x positions x document modes with per-run quirk probes"),
+              "targets x zones x positions x document modes with per-run quirk probes; the declared zone of the Aware variants is a case "
+              "dimension of its own (any key of the system's IANA table by lexical class, ZoneInfo and fixed-offset timezone objects, as "
+              "the annotation itself and inside Annotated, every position; all four clauses as oracle, zone opaque in the model)"),
         technique='Lean 4 proof over a hand model + differential correspondence + quirk probes', ref='4 C17'),
     'C19': dict(
         text=("Lean theorems over a model of the schema generator (type inference, the three merges, naming, rendering, the CLI as a "
